@@ -124,7 +124,7 @@ func main() {
 		cf.Printf("%s\n", l.line())
 		for _, v := range vars[l.ID] {
 			cf.Printf("%s\n", v.line())
-			ro, err := x.run(l, v)
+			ro, err := runGuarded(x, l, v)
 			if err != nil {
 				oo.Printf("%s\trunerr\t%s\t-\t-\n", v.ID, strings.ReplaceAll(err.Error(), "\t", " "))
 				continue
@@ -148,6 +148,26 @@ func main() {
 			cf.Printf("%s.b\tB\t%s\t%s\n", v.ID, fl, modelInput(l, v, ro))
 			io.Printf("%s.b\t%s # %s\n", v.ID, strings.Join(ro.trace, " "), strings.Join(ro.kinds, " "))
 		}
+	}
+}
+
+// runGuarded: a variant whose run does not return within a minute (a deadlock in the code under
+// test) is reported as a run error instead of hanging the whole check; its goroutine is abandoned.
+func runGuarded(x *runner, l *Log, v *Variant) (*runOut, error) {
+	type res struct {
+		ro  *runOut
+		err error
+	}
+	ch := make(chan res, 1)
+	go func() {
+		ro, err := x.run(l, v)
+		ch <- res{ro, err}
+	}()
+	select {
+	case r := <-ch:
+		return r.ro, r.err
+	case <-time.After(60 * time.Second):
+		return nil, fmt.Errorf("timeout: the state machine did not return within 60 s (deadlock?)")
 	}
 }
 
